@@ -348,7 +348,104 @@ def scorer_build(ctx):
            "build() searches a collision-free base with check_base before placing a row")
 
 
+def rowrange(ctx):
+    """ROWRANGE (C06, C07): the raw connector stores one row of `feat_template_size` vectors per
+    connection id in flat tables. Every slice taken from a U31x8 table in a RawConnector method
+    must be row-granular: [k*w .. (k+1)*w] (or k*w.. followed by ..w, or chunks of w) with
+    w = self.feat_template_size. A slice at offset `id` instead of `id*w` still compiles and
+    still passes the 5-template tests (w = 1)."""
+    crate = ctx.facts("A").lib
+    E = Effects(crate)
+    n = 0
+    ords = {}
+
+    def is_w(e):
+        e = strip_casts(e)
+        return e[0] == "ap" and e[1].proj[-1:] == ("feat_template_size",)
+
+    def times_w(e):
+        """k if e is k*w, else None (as printed text; 0*w is not expected)"""
+        e = strip_casts(e)
+        if e[0] == "binop" and e[1] == "Mul":
+            if is_w(e[3]):
+                return canon(e[2])
+            if is_w(e[2]):
+                return canon(e[3])
+        return None
+
+    def canon(e):
+        import re
+        return re.sub(r"@bb\d+", "", show(strip_casts(e)))
+
+    def row_end(e, k):
+        e = strip_casts(e)
+        if e[0] == "binop" and e[1] == "Mul":
+            for x, y in ((e[2], e[3]), (e[3], e[2])):
+                x = strip_casts(x)
+                if is_w(y) and x[0] == "binop" and x[1] == "Add":
+                    for p, q in ((x[2], x[3]), (x[3], x[2])):
+                        if strip_casts(q) == ("const", 1) and canon(p) == k:
+                            return True
+        if e[0] == "binop" and e[1] == "Add":
+            for x, y in ((e[2], e[3]), (e[3], e[2])):
+                if is_w(y) and times_w(x) == k:
+                    return True
+        return False
+
+    for p, f in sorted(crate.fns.items()):
+        if not f.body or "raw_connector::RawConnector" not in p or "from_readers" in p \
+                or "{closure" in p:
+            continue
+        fa = E.fa(p)
+        S = Sym(E, fa)
+        for b, t in fa.calls():
+            ps = [strip_generics(x) for x in callee_paths(t)]
+            nm = {x.rsplit("::", 1)[-1] for x in ps}
+            if not (nm & {"index", "index_mut", "get", "get_mut", "chunks", "chunks_exact",
+                          "chunks_mut", "chunks_exact_mut", "split_at", "split_at_mut",
+                          "get_unchecked", "get_unchecked_mut"}):
+                continue
+            pl = op_place(t["args"][0]) if t["args"] else None
+            if pl is None or "U31x8" not in fa.fn.locals[pl["l"]]["ty"]:
+                continue
+            if len(t["args"]) < 2:
+                continue
+            n += 1
+            idx = S.operand(t["args"][1])
+            recv = S.operand(t["args"][0])
+            ok, why = False, "unrecognised index %s" % show(idx)
+            if nm & {"chunks", "chunks_exact", "chunks_mut", "chunks_exact_mut"}:
+                ok = is_w(idx)
+                why = "chunks of feat_template_size" if ok else "chunk size %s is not feat_template_size" % show(idx)
+            elif idx[0] == "agg" and idx[1].endswith("Range::Range"):
+                k = times_w(idx[2]["start"])
+                if k is None:
+                    why = "start %s is not <id> * feat_template_size" % show(idx[2]["start"])
+                elif not row_end(idx[2]["end"], k):
+                    why = "end %s is not (%s + 1) * feat_template_size" % (show(idx[2]["end"]), k)
+                else:
+                    ok, why = True, "row %s" % k
+            elif idx[0] == "agg" and idx[1].endswith("RangeFrom::RangeFrom"):
+                k = times_w(idx[2]["start"])
+                ok = k is not None
+                why = "rows from %s" % k if ok else "start %s is not <id> * feat_template_size" % show(idx[2]["start"])
+            elif idx[0] == "agg" and idx[1].endswith("RangeTo::RangeTo"):
+                ok = is_w(idx[2]["end"]) or times_w(idx[2]["end"]) is not None
+                why = "first row(s)" if ok else "end %s is not a multiple of feat_template_size" % show(idx[2]["end"])
+            elif idx[0] == "agg" and idx[1].endswith("RangeFull"):
+                ok, why = True, "whole table"
+            kk = (p, canon(recv))
+            ords[kk] = ords.get(kk, 0) + 1
+            ctx.ob("ROWRANGE", "%s|%s|%d" % (p, canon(recv)[:60], ords[kk] - 1), ok, fa.loc(b),
+                "%s slices %s by whole rows (%s)" % (p.split("::")[-1], show(recv)[:40], why) if ok else
+                "%s takes a slice of the feature-id table %s that is not aligned to rows of "
+                "feat_template_size vectors (%s): with more than 8 templates the ids of "
+                "neighbouring connection ids are mixed" % (p.split("::")[-1], show(recv)[:40], why))
+    ctx.floor("ROWRANGE", "row slices of the raw connector's feature tables", n, 6)
+
+
 def run(ctx):
+    rowrange(ctx)
     scorer_build(ctx)
     portable(ctx)
     avx2(ctx)
